@@ -20,6 +20,7 @@ import (
 	"net"
 	"os"
 	"os/exec"
+	"path/filepath"
 	"reflect"
 	"regexp"
 	"sort"
@@ -35,7 +36,7 @@ import (
 	"verifharness/hx"
 )
 
-var drivers = map[string]hx.DriverFn{"alloc": runAlloc, "barrage": runBarrage, "clientbarrage": runClientBarrage, "racebarrage": runRaceBarrage}
+var drivers = map[string]hx.DriverFn{"alloc": runAlloc, "barrage": runBarrage, "clientbarrage": runClientBarrage, "racebarrage": runRaceBarrage, "clientrace": runClientRace}
 
 func main() {
 	if len(os.Args) >= 2 && os.Args[1] == "serve" {
@@ -58,7 +59,21 @@ func serve(args []string) {
 	if len(args) > 1 {
 		fmt.Sscan(args[1], &maxPool)
 	}
+	// ssh tunnel gateway: host key generated into a directory of its own (inside the directory the parent names), removed on exit
+	keyDir := ""
+	if len(args) > 2 {
+		keyDir, _ = os.MkdirTemp(args[2], "c16sshkey")
+	}
+	if keyDir != "" {
+		defer os.RemoveAll(keyDir)
+	}
+	sshPort := 0
 	s, err := hx.StartServer(addr, func(c *v1.ServerConfig) {
+		if keyDir != "" {
+			sshPort = hx.FreePort(addr)
+			c.SSHTunnelGateway.BindPort = sshPort
+			c.SSHTunnelGateway.AutoGenPrivateKeyPath = filepath.Join(keyDir, "host_key")
+		}
 		c.Transport.MaxPoolCount = maxPool
 		c.VhostHTTPPort = hx.FreePort(addr)
 		c.SubDomainHost = "sub.test"
@@ -71,9 +86,12 @@ func serve(args []string) {
 	})
 	if err != nil {
 		fmt.Println("ERR", err)
+		if keyDir != "" {
+			os.RemoveAll(keyDir)
+		}
 		os.Exit(3)
 	}
-	fmt.Printf("READY %d %d\n", s.Port, s.Cfg.VhostHTTPPort)
+	fmt.Printf("READY %d %d %d\n", s.Port, s.Cfg.VhostHTTPPort, sshPort)
 	_, _ = io.Copy(io.Discard, os.Stdin)
 	s.Close()
 }
@@ -84,18 +102,26 @@ type child struct {
 	addr   string
 	port   int
 	vhost  int
+	ssh    int // port of the ssh tunnel gateway (0 = not enabled)
 	errBuf *strings.Builder
 	done   chan struct{}
 	mu     sync.Mutex
 }
 
-func startChild(addr string, maxPool int) (*child, error) {
-	c, line, err := startChildProc("serve", addr, fmt.Sprint(maxPool))
+func startChild(addr string, maxPool int) (*child, error) { return startChildSSH(addr, maxPool, "") }
+
+// startChildSSH: keyDir != "" switches the ssh tunnel gateway on (the child creates and removes its key directory inside keyDir).
+func startChildSSH(addr string, maxPool int, keyDir string) (*child, error) {
+	args := []string{"serve", addr, fmt.Sprint(maxPool)}
+	if keyDir != "" {
+		args = append(args, keyDir)
+	}
+	c, line, err := startChildProc(args...)
 	if err != nil {
 		return nil, err
 	}
 	c.addr = addr
-	fmt.Sscanf(line, "READY %d %d", &c.port, &c.vhost)
+	fmt.Sscanf(line, "READY %d %d %d", &c.port, &c.vhost, &c.ssh)
 	return c, nil
 }
 
@@ -592,11 +618,24 @@ func barrage(cfg *hx.RunCfg, raceMode bool) error {
 	if raceMode {
 		childAddr = "127.0.16.3"
 	}
-	c, err := startChild(childAddr, 5)
+	keyParent := ""
+	if cfg.Stats != "" {
+		keyParent = filepath.Dir(cfg.Stats)
+	}
+	c, err := startChildSSH(childAddr, 5, keyParent)
 	if err != nil {
 		return err
 	}
-	defer c.stop()
+	defer func() { // a crashed child cannot remove its key directory
+		c.stop()
+		if keyParent != "" {
+			if left, _ := filepath.Glob(filepath.Join(keyParent, "c16sshkey*")); len(left) > 0 {
+				for _, d := range left {
+					os.RemoveAll(d)
+				}
+			}
+		}
+	}()
 	s := c.server()
 	var fails []map[string]any
 	dist := map[string]int{}
@@ -913,6 +952,41 @@ func barrage(cfg *hx.RunCfg, raceMode bool) error {
 		}
 		time.Sleep(50 * time.Millisecond)
 		crashed("directed:udp-close-under-traffic", "udp proxies closed under datagram traffic")
+	}
+	// directed, last: the ssh tunnel gateway (anonymous ssh clients)
+	if c.alive() && c.ssh > 0 {
+		rounds := 40
+		if cfg.Tier == "thorough" {
+			rounds = 600
+		}
+		if raceMode {
+			rounds /= 2
+		}
+		sg := hx.NewGen(cfg.Seed + 4441)
+		for r := 0; r < rounds && c.alive(); r++ {
+			typ, detail := sshScenario(sg, c.addr, c.ssh, r)
+			time.Sleep(2 * time.Millisecond)
+			if crashed("directed:ssh-gateway:"+typ, detail) {
+				break
+			}
+			wd := true
+			if r%20 == 19 || r == rounds-1 {
+				var werr error
+				for try := 0; try < 3; try++ {
+					if werr = sshWatchdog(c.addr, c.ssh); werr == nil {
+						break
+					}
+					time.Sleep(200 * time.Millisecond)
+				}
+				if werr != nil && !crashed("directed:ssh-gateway:watchdog", detail) {
+					wd = false
+					fails = append(fails, map[string]any{"key": "frps-wedged:ssh-gateway", "what": "after the ssh barrage a well-formed ssh tunnel no longer works: " + werr.Error(), "case": detail})
+				}
+			}
+			record("directed:ssh-gateway", typ, detail, c.alive(), wd)
+		}
+		time.Sleep(50 * time.Millisecond)
+		crashed("directed:ssh-gateway", "ssh gateway barrage")
 	}
 	// race detector reports of a -race child (thorough tier): a race whose stack touches one of the shared
 	// tables' owner types is a violation; the others are listed in the stats
